@@ -3,6 +3,7 @@
 # Applies a change to /repo's working tree, runs the command, and restores /repo.
 set -u
 P="$1"; shift
+case "$P" in revert:*) ;; /*) ;; *) P="$PWD/$P" ;; esac
 cd /repo || exit 3
 if [ -n "$(git status --porcelain)" ]; then echo "/repo not clean" >&2; exit 3; fi
 restore() { git -C /repo checkout -q -- . ; git -C /repo clean -fdq; }
